@@ -370,6 +370,17 @@ namespace hv
         }
     };
 
+    struct VToBool
+    {
+        static constexpr auto name = "v_tobool";
+        HV_LIFECYCLE
+        static void eval(In<"a", TS<Int>> a, Scalar<"uid", Int> uid, NodeView nv, DateTime now, Out<TS<Bool>> out)
+        {
+            out.set(a.value() != 0);
+            log_eval(uid.value(), nv, now, a.value() != 0 ? Int{1} : Int{0}, a);
+        }
+    };
+
     // ---- sinks -------------------------------------------------------------------------
     struct VRec
     {
